@@ -181,6 +181,64 @@ def check(ctx):
     ctx.require_floor("R08.3", "ok_sites", len(ok_sites), 2)
     scan_complete(ctx, body, "R08.4")
 
+    # ------------------------------------------------------------------ R08.5 look-ahead position = loop variable
+    nx = [c for c in body.calls() if "std::iter::Iterator::next" in c.names() and c.bb in lblocks
+          and "Range<usize>" in (c.self_ty or "") and not any(c.bb in l[1] for l in cfg.natural_loops(body)
+                                                              if l[1] < lblocks and la.bb not in l[1])]
+    from ..dataflow import forward_derived
+    ok5 = False
+    if nx:
+        der = forward_derived(body, [nx[0].dest[0]], through_calls=lambda c: False)
+        a = la.args[1]
+        ok5 = a[0] in ("c", "m") and a[1][0] in der
+    ctx.check(ok5, "R08.5", "eval|lookahead-index-is-loop-variable",
+              "lookahead_token_type(i) reads the i-th look-ahead token of the look-ahead loop",
+              "the look-ahead loop does not read token i in iteration i (argument of lookahead_token_type is not the loop "
+              "variable): the automaton would be fed the wrong tokens", "%s:%d" % (body.file, la.line))
+
+    # ------------------------------------------------------------------ R08.6 early exit of the scan only on Greater
+    cmps = [c for c in body.calls() if c.path == "std::cmp::Ord::cmp" and c.bb in lblocks]
+    ok6 = False
+    why6 = "no comparison of the transition's terminal with the token"
+    if len(cmps) == 1:
+        c = cmps[0]
+        a0 = raw_operand_place(body, c.args[0])
+        a1 = raw_operand_place(body, c.args[1])
+        trans_first = a0 is not None and trans_field_of(a0) == 1
+        trans_second = a1 is not None and trans_field_of(a1) == 1
+        sw = None
+        for d in range(len(body.blocks)):
+            t = body.term(d)
+            if t[0] == "switch":
+                tt = operand_term(body, t[1])
+                if tt[0] == "disc" and tt[1][0] == "call" and tt[1][1].bb == c.bb:
+                    sw = d
+        if sw is not None and (trans_first or trans_second):
+            inner = [l for l in cfg.natural_loops(body) if sw in l[1]]
+            inner.sort(key=lambda l: len(l[1]))
+            iblocks = inner[0][1] if inner else set()
+            # Ordering: Less = -1 (255 as u8 / large), Equal = 0, Greater = 1
+            edges = body.switch_edges(sw)
+            def leaves_without_transition(tgt):
+                reach = cfg.reachable_from(body, tgt, avoid_blocks=trans_blocks)
+                # reaches a block outside the inner loop without passing the back edge of the inner loop
+                return any(b not in iblocks for b in reach)
+            exit_vals = [v for v, tgt in edges if v is not None and v != 0 and tgt not in trans_blocks
+                         and not any(hb == inner[0][0] for hb in [tgt]) and leaves_without_transition(tgt)
+                         and inner and inner[0][0] not in cfg.reachable_from(body, tgt, avoid_blocks=list(set(range(len(body.blocks))) - iblocks))]
+            want = 1 if trans_first else None
+            if trans_first:
+                ok6 = exit_vals == [1]
+                why6 = "the scan is left early for Ordering value(s) %s of transition.cmp(token); expected only Greater (1)" % exit_vals
+            else:
+                less = [v for v in exit_vals if v not in (0, 1)]
+                ok6 = len(exit_vals) == 1 and len(less) == 1
+                why6 = "the scan is left early for Ordering value(s) %s of token.cmp(transition); expected only Less" % exit_vals
+    ctx.check(ok6, "R08.6", "eval|early-exit-only-when-greater",
+              "the scan over the sorted transitions stops early only when the transition's terminal is greater than the token",
+              "early exit of the transition scan is not tied to `Greater` (%s): with the table sorted ascending by terminal a "
+              "matching transition further down would be missed" % why6, "%s:%d" % (body.file, la.line))
+
 
 def scan_complete(ctx, body, rule):
     """R08.4: the search for a transition examines the whole transition table for every look-ahead token.
